@@ -54,6 +54,11 @@ pub fn check(case: &StreamCase) -> Outcome {
         out.viol("format-mismatch", format!("STREAMINFO {:?} vs input {}", tr.info, i.describe()));
         return out;
     }
+    // the bytes must not depend on which sink type receives them
+    if let Err((sig, detail)) = other_sinks_agree(&run.stream, &run.bytes, case.inp.seed) {
+        out.viol(sig, detail);
+        return out;
+    }
     // second, third-party decoder
     match enc::claxon_decode(&run.bytes) {
         Ok((s, info)) => {
@@ -136,6 +141,8 @@ pub fn check(case: &StreamCase) -> Outcome {
 pub fn run(ctx: &Ctx) {
     ctx.rule(
         "cases = (valid config, valid PCM input descriptor, entry point in {single, multi(real threads), frame-level}, source kind); \
+         the stream is also written into MemSink<u64> (behind 0..2 stray bytes) and into a user sink with only the required operations: same bytes; \
+         family blocklen-sweep: every block length 1..=32767 once (one frame of that length; complete enumeration of the block-size code space); \
          non-trivial = at least one FIXED/LPC subframe or a stereo decorrelation mode or bps != 16 or a short final block; distinct by hash of the whole case",
     );
     ctx.assume("refdec (harness' own RFC 9639 reader) is cross-checked against claxon on every case");
@@ -148,6 +155,21 @@ pub fn run(ctx: &Ctx) {
     ctx.search("stream-heavy", 16, per / 2, &|| stream_case_strategy(co, io, true), check);
     // LPC stress: ill-conditioned predictors (i64 fallback, coefficient clamps, huge residuals)
     ctx.search("lpc-stress", 16, per, &|| lpc_stress_case_strategy(), check);
+    // every block length 1..=32767 once: one frame of that many samples (the block-size code table is finite and has
+    // special members; a sampled block size hits one given member with probability 3e-5)
+    {
+        use crate::gen::{CfgSpec, ChanSpec, InputSpec, Seg};
+        ctx.enumerate("blocklen-sweep", 16, 32767, |k| {
+            let n = k as usize + 1;
+            let mut cfg = CfgSpec::default();
+            cfg.block_size = n.max(32);
+            cfg.multithread = false;
+            let entry = if n % 2 == 0 { Entry::Single } else { Entry::Frames };
+            let class = [1u8, 0, 4][n % 3];
+            let inp = InputSpec { channels: 1 + (n % 5 == 0) as usize, bps: [8usize, 16, 24][n % 3], rate: 44100, len: n, chans: vec![ChanSpec { segs: vec![Seg { class, amp: 1, p: 3 }] }; 2], rel: 0, seed: n as u64, explicit: None };
+            StreamCase { cfg, inp, entry, src: crate::enc::SrcKind::Mem }
+        }, check);
+    }
     if ctx.tier == Tier::Thorough {
         let io = InOpts { budget: 120_000, ..Default::default() };
         ctx.search("stream-long", 16, 300, &|| stream_case_strategy(co, io, true), check);
